@@ -662,4 +662,8 @@ def protecting(access):
         lo = t[0][:-1]        # path of the object that owns the lock field
         if lo == obj: out.append((t[1], t[2], t[3], 'own', t[4]))
         elif len(lo) < len(obj) and obj[:len(lo)] == lo: out.append((t[1], t[2], t[3], 'anc', t[4]))
+        elif len(lo) == 2 and lo[0] == 'this' and t[1] and isinstance(access.root[1], str) and strip_targs(access.root[1]).startswith(strip_targs(t[1]) + '::'):
+            # a handle class nested in the class that owns the lock takes that lock through its back reference to the owner (`m_owner.m_lock`):
+            # which owner that is, is the business of the flow rule (DR.3 / CR.2)
+            out.append((t[1], t[2], t[3], 'own', t[4]))
     return out
